@@ -5,39 +5,9 @@ relation's columns and the number of rows lies within `[min_rows, max_rows]`.
 -/
 import DafRel.Lemmas.Sort
 import DafRel.Lemmas.Slice
+import DafRel.Spec.Preds
 
 namespace DafRel
-
-/-- `keys(row) == cols`. -/
-def RowHasCols (r : Row) (c : Cols) : Prop := ∀ t, (r t).isSome = true ↔ t ∈ c
-
-def RowsHaveCols (rows : List Row) (c : Cols) : Prop := ∀ r, r ∈ rows → RowHasCols r c
-
-/-- Leaves of the tree are truthful: declared columns are the row keys, declared bounds hold. -/
-def Rel.Truthful (σ : Leaves) : Rel → Prop
-  | .leaf oid _ cols _ mn mx _ _ =>
-    RowsHaveCols (σ oid) cols ∧ mn ≤ (σ oid).length ∧ (∀ m, mx = some m → (σ oid).length ≤ m)
-  | .unary _ t _ => Rel.Truthful σ t
-  | .binary _ l r _ => Rel.Truthful σ l ∧ Rel.Truthful σ r
-  | .mat _ _ t => Rel.Truthful σ t
-  | .transfer _ _ t => Rel.Truthful σ t
-  | .select _ _ _ _ _ _ _ _ t => Rel.Truthful σ t
-
-/-- Structural well-formedness (what every factory call establishes: C14). -/
-def Rel.WF : Rel → Prop
-  | .leaf .. => True
-  | .unary op t cols =>
-    Rel.WF t ∧ cols = op.appliedColumns t.columns ∧ op.wfOn t.columns = true
-  | .binary op l r cols =>
-    Rel.WF l ∧ Rel.WF r ∧
-      (match op with
-       | .chain => cols = l.columns ∧ (∀ t, t ∈ l.columns ↔ t ∈ r.columns)
-       | .join j => cols = l.columns.union r.columns ∧ j.minCols.subset l.columns = true ∧
-                    j.minCols.subset r.columns = true
-       | .ignoreOne _ => False)
-  | .mat _ _ t => Rel.WF t
-  | .transfer _ _ t => Rel.WF t
-  | .select _ _ _ _ _ _ _ _ t => Rel.WF t
 
 /-! ### Column-set lemmas -/
 
